@@ -32,7 +32,7 @@ type SysEv struct {
 	Args  string   // raw argument text
 	Paths []string // quoted path arguments and <path> fd annotations, in order
 	Ret   int64
-	Err   string // errno name, "" on success
+	Err   string // errno name, "" on success, "?" if the call never returned (process killed)
 }
 
 var (
@@ -75,7 +75,14 @@ func ParseStrace(path string) ([]SysEv, error) {
 		}
 		ev := SysEv{Name: m[2], Args: m[3], Err: m[5]}
 		ev.Pid, _ = strconv.Atoi(m[1])
-		ev.Ret, _ = strconv.ParseInt(m[4], 10, 64)
+		if m[4] == "?" {
+			// the call never returned (the process was killed at its entry or
+			// inside it): it is not a completed, successful call
+			ev.Err = "?"
+			ev.Ret = -1
+		} else {
+			ev.Ret, _ = strconv.ParseInt(m[4], 10, 64)
+		}
 		for _, q := range stQuoted.FindAllStringSubmatch(m[3], -1) {
 			if q[2] != "" {
 				ev.Paths = append(ev.Paths, q[2])
